@@ -6,7 +6,7 @@ open HyperModel.ABI
 /-- names that `getReflectType` looks up as struct names (Go identifiers other than the
 built-in spellings) -/
 def goodName (n : Name) : Prop :=
-  allPrims.find? (fun p => p.name == n) = none ∧ (n == addressName) = false ∧
+  allPrims.find? (fun p => p.name == n) = none ∧ (n == boolName) = false ∧ (n == addressName) = false ∧
     slicePrefix? n = none ∧ arrayRegex n = none ∧ n ≠ []
 
 def fieldOK (m : FieldMeta) : Prop :=
@@ -24,6 +24,7 @@ distinct after `Title`, and of supported type. -/
 inductive SupTy : GoTy → Prop
   | prim (p : Prim) : SupTy (.prim p)
   | address : SupTy .address
+  | bool : SupTy .bool
   | slice {t : GoTy} : SupTy t → SupTy (.slice t)
   | array (n : Nat) {t : GoTy} : SupTy t → SupTy (.array n t)
   | struct {n : Name} {fs : Fields} : goodName n →
@@ -53,7 +54,7 @@ theorem supInfoTy : (t : GoTy) → SupTy t →
     (∃ nm, typeName t = some nm ∧ nm ≠ []) ∧ (∀ x ∈ structsOf t, SupStruct x)
   | .prim p, _ => ⟨⟨p.name, rfl, by cases p <;> decide⟩, by simp [structsOf]⟩
   | .address, _ => ⟨⟨addressName, rfl, by decide⟩, by simp [structsOf]⟩
-  | .bool, h => by cases h
+  | .bool, _ => ⟨⟨boolName, rfl, by decide⟩, by simp [structsOf]⟩
   | .named _ _, h => by cases h
   | .ptr _, h => by cases h
   | .map _ _, h => by cases h
@@ -72,7 +73,7 @@ theorem supInfoTy : (t : GoTy) → SupTy t →
     cases h with
     | struct hg hn hf =>
       obtain ⟨_, h2⟩ := supInfoFields fs hf
-      refine ⟨⟨n, by simp [typeName, hg.2.2.2.2], hg.2.2.2.2⟩, ?_⟩
+      refine ⟨⟨n, by simp [typeName, hg.2.2.2.2.2], hg.2.2.2.2.2⟩, ?_⟩
       intro x hx
       simp only [structsOf, List.mem_cons] at hx
       rcases hx with rfl | hx
@@ -158,8 +159,8 @@ theorem reflect_struct (abi : ABI) (fuel : Nat) (n : Name) (hg : goodName n) (ty
       | .ok fl =>
         if namesOK (ty.fields.map (fun f => title f.1)) then .ok (.struct [] (Fields.ofList fl))
         else .error .panic := by
-  obtain ⟨h1, h2, h3, h4, _⟩ := hg
-  simp only [reflectType, h1, h2, h3, h4, hf]
+  obtain ⟨h1, hb, h2, h3, h4, _⟩ := hg
+  simp only [reflectType, h1, hb, h2, h3, h4, hf]
   rfl
 
 /-! ### parsing of printed type names -/
@@ -169,6 +170,9 @@ theorem prim_roundtrip (abi : ABI) (fuel : Nat) (p : Prim) :
 
 theorem address_roundtrip (abi : ABI) (fuel : Nat) :
     reflectType abi (fuel + 1) addressName = .ok .address := by rfl
+
+theorem bool_roundtrip (abi : ABI) (fuel : Nat) :
+    reflectType abi (fuel + 1) boolName = .ok .bool := by rfl
 
 theorem slice_roundtrip (abi : ABI) (fuel : Nat) (nm : Name) :
     reflectType abi (fuel + 1) ('[' :: ']' :: nm) = (reflectType abi fuel nm).map .slice := by rfl
@@ -209,7 +213,8 @@ theorem array_roundtrip (abi : ABI) (fuel : Nat) (n : Nat) (nm : Name) (hnm : nm
       (reflectType abi fuel nm).map (.array n) := by
   have h1 : allPrims.find? (fun p => p.name == '[' :: (natDigits n ++ ']' :: nm)) = none := by rfl
   have h2 : (('[' :: (natDigits n ++ ']' :: nm)) == addressName) = false := by rfl
-  simp only [reflectType, h1, h2, slicePrefix_array, arrayRegex_natDigits n nm hnm]
+  have hb : (('[' :: (natDigits n ++ ']' :: nm)) == boolName) = false := by rfl
+  simp only [reflectType, h1, hb, h2, slicePrefix_array, arrayRegex_natDigits n nm hnm]
   rfl
 
 
@@ -233,7 +238,10 @@ theorem rtTy (U : List (Name × Fields)) (hc : Consistent U) : (t : GoTy) → Su
     cases fuel with
     | zero => simp [depth] at hf
     | succ f => exact ⟨addressName, .address, rfl, address_roundtrip _ f, rfl⟩
-  | .bool, h, _, _, _ => by cases h
+  | .bool, _, _, fuel, hf => by
+    cases fuel with
+    | zero => simp [depth] at hf
+    | succ f => exact ⟨boolName, .bool, rfl, bool_roundtrip _ f, rfl⟩
   | .named _ _, h, _, _, _ => by cases h
   | .ptr _, h, _, _, _ => by cases h
   | .map _ _, h, _, _, _ => by cases h
@@ -269,7 +277,7 @@ theorem rtTy (U : List (Name × Fields)) (hc : Consistent U) : (t : GoTy) → Su
         have hfind := findType_entry U hc n fs U (fun x hx => hx) hmem hmem
         obtain ⟨l, h1, h2⟩ := rtFields U hc fs hfs
           (fun x hx => hs x (by simp [structsOf, hx])) f (by simp [depth] at hf; omega)
-        refine ⟨n, .struct [] (Fields.ofList l), by simp [typeName, hg.2.2.2.2], ?_, ?_⟩
+        refine ⟨n, .struct [] (Fields.ofList l), by simp [typeName, hg.2.2.2.2.2], ?_, ?_⟩
         · rw [reflect_struct _ f n hg _ hfind]
           simp only [entry, h1, hn, if_true]
         · simp [shape, h2]
